@@ -30,14 +30,18 @@ ACCEPTED = [D.unifying(), D.scale(D.unifying(), 2.), D.scale(D.unifying(), .25),
             D.scale(D.unifying(), 1. / 8192)]
 OTHERS = [D.pseudo(), D.induced(), D.extended(), D.unifying(.5), D.pseudo(.5), D.induced(.5),
           D.GENERIC_A, D.GENERIC_B, D.GENERIC_C] + D.BOUNDARY + [D.scale(D.pseudo(), 2.), D.scale(D.induced(), .25)]
+# near ties: a tie costs 1 + 2**-33 where an inversion costs 1, so scores that differ do so by ~1e-10 relative (exact in
+# double precision for these counts): "minimum" and "equal to the minimum" must be exact comparisons, not tolerant ones
+NEAR_TIE = [D.pseudo(1. + 2. ** -33), D.pseudo(1. - 2. ** -33)]
 SCHEMES_QUICK = ACCEPTED[:3] + T_DIFFERENT + [D.pseudo(), D.induced(), D.extended(), D.unifying(.5), D.GENERIC_B,
-                                              D.GENERIC_C, D.BOUNDARY[0], D.BOUNDARY[3]]
-SCHEMES_ALL = ACCEPTED + T_DIFFERENT + OTHERS
+                                              D.GENERIC_C, D.BOUNDARY[0], D.BOUNDARY[3]] + NEAR_TIE
+SCHEMES_ALL = ACCEPTED + T_DIFFERENT + OTHERS + NEAR_TIE
 
 RULE = ("one case = one dataset, evaluated under every scheme of the tier's scheme list and both values of "
         "return_at_most_one_ranking. quick: every dataset over R(3) with 1..2 rankings (canonical names), plus 400 "
         "seeded datasets n<=5, m<=4 cycling through 6 element-name kinds (canonical, permuted ints, hash-colliding "
-        "ints, strings, integer-like strings, mixed), 14 schemes (unifying x1, x2, x1/4; three schemes proportional "
+        "ints, strings, integer-like strings, mixed), 5 datasets built with keep_element_types=True where 1 and '1' are "
+        "different elements, 16 schemes (incl. two near-tie schemes, tie cost 1 +- 2**-33 (unifying x1, x2, x1/4; three schemes proportional "
         "to unifying on B only; presets; generic / boundary schemes). thorough: R(3) m<=3, R(4) m<=2 (datasets of 3 "
         "rankings and those over 4 names under a rotating window of 9 of the 27 schemes), 4000 samples n<=6, m<=5 "
         "under all 27 schemes. Non-trivial = universe of >= 2 elements (at least one pair is scored); distinct = "
@@ -49,10 +53,25 @@ EXHAUSTIVE = {"quick": False, "thorough": False}
 CHUNK = 4
 
 
+def _typed_twin_cases(si):
+    """datasets built with keep_element_types=True in which the int 1 and the string "1" are two different elements:
+    rankings that differ only by which twin comes first print alike but are different rankings with different scores"""
+    twins = [
+        [[[1], ["1"]], [["1"], [1]], [["1"], [1]]],
+        [[["1"], [1]], [[1], ["1"]], [[1], ["1"]], [["1"], [1]], [["1"], [1]]],
+        [[[1], ["1"], [2]], [["1"], [1], [2]], [["1"], [2], [1]], [["1"], [1], [2]]],
+        [[[1, 2], ["1"]], [["1", 2], [1]], [["1"], [1, 2]], [["1", 2], [1]]],
+        [[["a"], [1], ["1"]], [["a"], ["1"], [1]], [["1"], ["a"], [1]], [["a"], ["1"], [1]]],
+    ]
+    for d in twins:
+        yield {"rankings": d, "schemes": si, "namekind": "typed twins (keep_element_types)", "keep_types": True}
+
+
 def gen_cases(tier, seed):
     quick = tier == "quick"
     si = "quick" if quick else "all"
     idx = 0
+    yield from _typed_twin_cases(si)
     for d in D.all_datasets(3, 2 if quick else 3):
         yield {"rankings": d, "schemes": si if quick or len(d) < 3 else "w%d" % idx, "namekind": "canon"}
         idx += 1
@@ -104,7 +123,8 @@ def check_case(case):
                                                          InompleteRankingsIncompatibleWithScoringSchemeException)
     rankings = case["rankings"]
     schemes = _schemes(case["schemes"])
-    exp_r, _conv = A.expected_names(rankings)
+    keep = bool(case.get("keep_types"))
+    exp_r = rankings if keep else A.expected_names(rankings)[0]
     universe = D.universe_of(exp_r)
     complete = D.is_complete(exp_r)
     unified = [O.unify(r, universe) for r in exp_r]
@@ -123,7 +143,11 @@ def check_case(case):
         minimal = set(c for c, s in zip(unified_canon, scores) if s == best)
         for one in (True, False):
             evals += 1
-            ds = A.mk_dataset(rankings)
+            if keep:
+                from corankco.dataset import Dataset
+                ds = Dataset([A.mk_ranking(r) for r in rankings], keep_element_types=True)
+            else:
+                ds = A.mk_dataset(rankings)
             try:
                 cons = PickAPerm().compute_consensus_rankings(ds, A.mk_scheme(scheme), one)
             except InompleteRankingsIncompatibleWithScoringSchemeException:
